@@ -203,6 +203,64 @@ class SimSelector(object):
             self.run.log([6])
 
 
+class HonestSelector(SimSelector):
+    """A selector that sleeps exactly as long as it is told to (scenario key `honest`).  The scenario's steps are then ARRIVALS on
+    an absolute time line -- ("data", dt, bytes): the bytes arrive dt ticks after the previous arrival; ("timeout", dt): nothing
+    arrives for dt ticks; eof / oserr / exc likewise -- and not wake-ups: wait(timeout) returns True as soon as the next arrival is
+    there, False after `timeout` seconds otherwise; a negative timeout or None blocks until something arrives (what poll() does),
+    i.e. for ever when nothing does.  After the last arrival the line stays silent until sc["horizon"] ticks.  The wake-ups that
+    really happened are recorded as an ordinary step script in run.wake_script (for the model and for fam.timeline)."""
+
+    def wait(self, max_bytes, timeout=0.0):
+        run = self.run
+        run.wait_timeouts.append(timeout)
+        steps = run.steps
+        now = run.clock.ticks
+        last = getattr(run, "last_wake", 0)
+        while run.pos < len(steps) and steps[run.pos][0] == "timeout":
+            run.arr_base = getattr(run, "arr_base", 0) + steps[run.pos][1]
+            run.pos += 1
+        t_arr = None
+        if run.pos < len(steps):
+            t_arr = getattr(run, "arr_base", 0) + steps[run.pos][1]
+        tmo = None if (timeout is None or timeout < 0) else int(round(timeout * TICK))
+        horizon = run.sc.get("horizon", 0)
+        if t_arr is not None and (tmo is None or t_arr <= now + tmo):
+            st = steps[run.pos]
+            run.pos += 1
+            run.arr_base = t_arr
+            run.clock.ticks = max(now, t_arr)
+            run.wake_script.append((st[0], run.clock.ticks - last) + tuple(st[2:]))
+            run.last_wake = run.clock.ticks
+            run.log([10])
+            kind = st[0]
+            if kind == "selexc":
+                raise IOError(EXC_TEXTS[run.pos % len(EXC_TEXTS)])
+            self.sock.next_recv = ("data", st[2]) if kind == "data" else (kind,)
+            run.max_bytes_seen.append(max_bytes)
+            return True, max_bytes
+        if tmo is None:
+            # nothing will ever arrive and no timeout was given: the loop sleeps for ever
+            if horizon > now:
+                run.clock.ticks = horizon
+                run.wake_script.append(("timeout", horizon - last))
+                run.last_wake = horizon
+                run.log([10])
+            run.log([7])
+            run.dead = True
+            raise Blocked()
+        wake = now + tmo
+        if t_arr is None and wake > horizon:
+            run.log([7])
+            run.dead = True
+            raise Blocked()
+        run.clock.ticks = wake
+        run.wake_script.append(("timeout", wake - last))
+        run.last_wake = wake
+        run.log([10])
+        return False, max_bytes
+
+
 class Run(object):
     """State of one simulated execution."""
 
@@ -220,6 +278,7 @@ class Run(object):
         self.request = None
         self.clock = Clock()
         self.wait_timeouts = []
+        self.wake_script = []
         self.max_bytes_seen = []
         self.live_views = []
         self.events = []       # the real event objects, kept to check they never change afterwards
@@ -389,7 +448,7 @@ def run_impl(sc, url="ws://example.test/chat", ws_kwargs=None, check_alias=True)
 
             def _selector_cls(self, sock):
                 run = holder["run"]
-                run.selector = SimSelector(sock, run)
+                run.selector = (HonestSelector if run.sc.get("honest") else SimSelector)(sock, run)
                 return run.selector
         holder["cls"] = Sess
     holder["sc"], holder["run"] = sc, run
@@ -434,6 +493,10 @@ def run_impl(sc, url="ws://example.test/chat", ws_kwargs=None, check_alias=True)
                 kind = a[0]
                 if kind == "abandon":
                     return a[1]
+                if kind == "sleep":
+                    # the application's handler takes (virtual) time
+                    run.clock.ticks += a[1]
+                    continue
                 try:
                     if kind == "text":
                         ws.send_text(a[1].decode("utf-8"), compress=a[2])
@@ -677,6 +740,8 @@ def to_sx(sc):
         acts = []
         for a in sc["app"][i]:
             k = a[0]
+            if k == "sleep":
+                continue
             if k in ("text", "binary"):
                 acts.append([ACT_CODES[k], a[1], 1 if a[2] else 0])
             elif k in ("ping", "pong"):
